@@ -137,6 +137,25 @@ pub fn run(run: &mut Run) -> PResult {
             items.push((sh, v));
         }
         let n = items.len() as u64;
+        // one thread over the plain representatives (every pair really back to back), then all
+        // threads over the doubled set
+        let plain: Vec<([u32; 5], u16)> = items.iter().step_by(2).copied().collect();
+        let touch1 = |a: &([u32; 5], u16)| {
+            std::hint::black_box(Five::from(a.0).hand_rank_value());
+        };
+        let check1 = |b: &([u32; 5], u16)| -> Result<(), String> {
+            let v = Five::from(b.0).hand_rank_value();
+            if v == b.1 {
+                Ok(())
+            } else {
+                Err(format!("[{}] returned {}, the strength ordinal is {}", card::render_hand(&b.0), v, b.1))
+            }
+        };
+        if let Some((a, b, m)) = engine::ordered_pairs_mode(&plain, &touch1, &check1, false) {
+            let seq = vec![hand_json(&plain[a].0), hand_json(&plain[b].0)];
+            let sig = format!("{} ; {}", card::render_hand(&plain[a].0), card::render_hand(&plain[b].0));
+            run.violation("C01.sequence", &sig, json!({"size": 5, "sequence": seq}), &format!("after ranking [{}]: {}", card::render_hand(&plain[a].0), m))?;
+        }
         let hit = engine::ordered_pairs(
             &items,
             &|a| {
@@ -152,7 +171,7 @@ pub fn run(run: &mut Run) -> PResult {
                 }
             },
         );
-        run.generator("all ordered pairs of class representatives, ranked back to back", "exhaustive (histories of length 2)", Some(n * n), n * n, n * n - n, "items = one hand per strength class in two suit/slot arrangements; non-trivial = pairs of different items");
+        run.generator("all ordered pairs of class representatives, ranked back to back", "exhaustive (histories of length 2)", Some(n * n), n * n, n * n - n, "items = one hand per strength class in two suit/slot arrangements (the 7,462 x 7,462 pairs of the first arrangement on a single thread, the rest on all threads); non-trivial = pairs of different items");
         if let Some((a, b, m)) = hit {
             let seq = vec![hand_json(&items[a].0), hand_json(&items[b].0)];
             let sig = format!("{} ; {}", card::render_hand(&items[a].0), card::render_hand(&items[b].0));
